@@ -11,11 +11,16 @@ def run(rep: Report, repo: Repo, tier: str) -> None:
                "ATN by C02-R5)",
                "the listener depends on the input only through the command name, the argument count and the abstract state "
                "atoms listed in the evidence")
-    protocol.rule_flag_independence(rep, repo, "C08-R1", "C08-R2")
-    tables.rule_flag_tables(rep, repo, "C08-R3")
-    protocol.rule_top_addressing(rep, repo, "C08-R4")
+    with rep.isolated():
+        protocol.rule_flag_independence(rep, repo, "C08-R1", "C08-R2")
+    with rep.isolated():
+        tables.rule_flag_tables(rep, repo, "C08-R3")
+    with rep.isolated():
+        protocol.rule_top_addressing(rep, repo, "C08-R4")
     from . import render
-    render.rule_member_independence(rep, repo, "C08-R5")
+    with rep.isolated():
+        render.rule_member_independence(rep, repo, "C08-R5")
     if tier == "thorough":
         from . import trace_rules
-        trace_rules.rule_flag_traces(rep, repo, "C08-I1")
+        with rep.isolated():
+            trace_rules.rule_flag_traces(rep, repo, "C08-I1")
